@@ -191,6 +191,42 @@ def run(ck, ctx):
                 elif isinstance(k, ast.JoinedStr) and pat.match(ast.unparse(k)[2:-1] if ast.unparse(k).startswith("f") else ""):
                     for kind in ("schema_name", "database_name"):
                         writers[kind].append(g.qual + " (pattern)")
+    # marker keys computed from a keyword position, f"{p[i].lower()}_name": evaluate per grammar alternative of that action
+    gm = ctx.grammar
+    terms = set(gm.terminals)
+    n_pat = 0
+    for g in S.parser_family_funcs(ctx):
+        if not g.name.startswith("p_") or g.name not in gm.func_of or gm.func_of[g.name] is not g:
+            continue
+        for n in ast.walk(g.node):
+            keys = []
+            if isinstance(n, ast.Dict):
+                keys = [k for k in n.keys if k is not None]
+            elif isinstance(n, ast.Subscript) and isinstance(n.ctx, ast.Store):
+                keys = [n.slice]
+            for k in keys:
+                if not isinstance(k, ast.JoinedStr):
+                    continue
+                mt = re.match(r"^f'\{p\[(\d+)\]\.lower\(\)\}_name'$", ast.unparse(k))
+                if not mt:
+                    continue
+                pos = int(mt.group(1))
+                atoms = [a for a, pol in guard_atoms(g.node, S.stmt_of(g, n)) if pol]
+                for lhs, rhs in gm.alternatives(g.name):
+                    if pos - 1 >= len(rhs):
+                        continue
+                    sym = rhs[pos - 1]
+                    if sym not in terms or sym in ("ID", "DQ_STRING", "STRING_BASE"):
+                        continue
+                    # the dict is built on the branch taken when the earlier, more specific tests fail; a terminal keyword
+                    # token carries its own upper-cased text
+                    key = f"{sym.lower()}_name"
+                    n_pat += 1
+                    reach = not any(f"'{sym}' in" in a or f'"{sym}" in' in a for a in atoms)
+                    ck.ob("T-AGREE.markers", f"{g.qual}: `{lhs} -> {' '.join(rhs)}` yields marker `{key}`", key in keys_map or not reach,
+                          f"the entity produced for this alternative carries the key {key!r}, which the regrouping does not know: it "
+                          "would be in the flat result but in no bucket", g.loc(n))
+    ck.count("pattern_marker_alternatives", n_pat)
     for kind, ws in writers.items():
         ck.ob("T-AGREE.markers", f"marker `{kind}` has a writer", bool(ws),
               f"writers: {sorted(set(ws))[:4]}: a marker nobody writes means entities of that kind carry another key and are lost "
